@@ -334,11 +334,21 @@ def plans_C02(g, tier):
                             g.create(2, g.shape(fn=F1, mk1='ANY', seqar=ar(m3), nse=1), obj=0, lo=1, hi=2, s1=1 if m3 == 2 else 0, s2=1),
                             g.create(3, g.shape(fn=F1, mk1='EQ', seqar=0, nse=1), obj=0, k1=1, lo=0, hi=INF)])
     mon_alpha = calls + [g.op(OP_DELETE_WATCHED, obj=0), g.op(OP_DESTROY_SEQ, s1=0), g.op(OP_DESTROY_SEQ, s1=1)] + [g.release(i) for i in range(4)]  # a sequence object may die first: its steps are then unordered
+    # two mock objects sharing the sequences: the death of one object does not release the steps registered on it
+    two_pre = []
+    for b0, b1 in itertools.product([(1, 1), (0, INF), (1, 2)], repeat=2):
+        for ar2 in (0, 1):
+            two_pre.append([g.create(0, g.shape(fn=F1, mk1='ANY', seqar=1, nse=1), obj=0, lo=b0[0], hi=b0[1], s1=0),
+                            g.create(1, g.shape(fn=F1, mk1='ANY', seqar=1, nse=1), obj=1, lo=b1[0], hi=b1[1], s1=0),
+                            g.create(2, g.shape(fn=F1, mk1='EQ', seqar=ar2, nse=1), obj=1, k1=1, lo=0, hi=INF, s1=0),
+                            g.create(3, g.shape(fn=F1, mk1='ANY', seqar=0, nse=1), obj=1, lo=0, hi=INF)][::1])
+    two_alpha = [g.call(0, F1, 1), g.call(1, F1, 1), g.call(1, F1, 2), g.op(OP_DESTROY_MOCK, obj=0), g.op(OP_DESTROY_MOCK, obj=1), g.op(OP_DESTROY_SEQ, s1=0)] + [g.release(i) for i in range(4)]
+    two_plan = dict(name='sel_two_objects', mask=M_C02, du=0, dm=4 if tier == 'quick' else 6, alphabet=two_alpha, prefixes=two_pre)
     mon_plan = dict(name='sel_with_monitor', mask=M_C02, du=0, dm=4 if tier == 'quick' else 6, alphabet=mon_alpha, prefixes=mon_pre)
     if tier == 'quick':
-        return [mon_plan, dict(name='sel3', mask=M_C02, du=0, dm=4, alphabet=calls + rel, prefixes=c02_configs(g, ('ANY', 'EQ', 'LT'), [(0, INF), (1, 2)])),
+        return [mon_plan, two_plan, dict(name='sel3', mask=M_C02, du=0, dm=4, alphabet=calls + rel, prefixes=c02_configs(g, ('ANY', 'EQ', 'LT'), [(0, INF), (1, 2)])),
                 dict(name='isolation', mask=M_C02, du=0, dm=5, alphabet=iso_alpha, prefixes=iso_pre)]
-    return [mon_plan, dict(name='sel3', mask=M_C02, du=0, dm=6, alphabet=calls + rel, prefixes=c02_configs(g, ('ANY', 'EQ', 'LT'), [(0, INF), (1, 2), (1, 1)])),
+    return [mon_plan, two_plan, dict(name='sel3', mask=M_C02, du=0, dm=6, alphabet=calls + rel, prefixes=c02_configs(g, ('ANY', 'EQ', 'LT'), [(0, INF), (1, 2), (1, 1)])),
             dict(name='isolation', mask=M_C02, du=0, dm=7, alphabet=iso_alpha, prefixes=iso_pre)]
 
 
